@@ -181,6 +181,10 @@ def a_fn_source(seq, use):
         if k in L.FN_BLOCK:
             lines.append("int u_blk%d(void) { int f(void); return f(); }" % i)
             blk.add(i)
+        elif k == "cp":
+            lines.append("int u_d%d, f(void);" % i)
+        elif k == "pc":
+            lines.append("int f(void), u_d%d;" % i)
         else:
             lines.append("%sint f(void)%s" % (sp + " " if sp else "", " { return 1; }" if d else ";"))
         if use.startswith("mid-") and i == 0:
@@ -287,7 +291,7 @@ def eval_a(chibicc, wd, cache, case):
         src = a_fn_source(seq, use)
         referenced = ref
         comp = companion(cache, "fn_" + mode, a_fn_companion(mode))
-        res["cls"] = L.fn_class(m)
+        res["cls"] = L.fn_class(m, seq)
         res["nontrivial"] = len(seq) > 1 or m["has_def"]
     res["files"] = {"unit.c": src, "expected.txt": expected}
     u = os.path.join(wd, "unit.c")
@@ -326,7 +330,7 @@ def eval_a(chibicc, wd, cache, case):
     if syms is None:
         res["status"] = "harness-timeout"
         return res
-    allowed = {"u_use", "u_set", "u_call", "u_fp", "u_blk0", "u_blk1", "u_blk2", "v" if kind == "obj" else "f"}
+    allowed = {"u_use", "u_set", "u_call", "u_fp", "u_blk0", "u_blk1", "u_blk2", "u_d0", "u_d1", "u_d2", "v" if kind == "obj" else "f"}
     if [x for x in syms if x["bind"] != "LOCAL" and x["ndx"] != "UND" and x["name"] not in allowed and not x["name"].startswith("_")]:
         res["devs"].append("unexpected-global-definition")
     if kind == "obj":
